@@ -81,3 +81,57 @@ func RunCLI(bin, dir string, env []string, args ...string) CLIResult {
 	}
 	return res
 }
+
+// SpellRoot chooses one of the legal ways a user may name the directory absDir on a command line and returns the
+// working directory to start the command in and the argument to pass. The same directory is meant in every case:
+//
+//	abs            /x/proj                 (cwd = fallbackCwd)
+//	abs-slash      /x/proj/                (cwd = fallbackCwd)
+//	rel            proj                    (cwd = /x)
+//	dot-rel        ./proj                  (cwd = /x)
+//	rel-slash      proj/                   (cwd = /x)
+//	dot            .                       (cwd = /x/proj)
+//	dotdot         ..                      (cwd = /x/proj/<an existing or newly created empty sub-directory>)
+//	sub-dotdot     /x/proj/<sub>/..        (cwd = fallbackCwd)
+//	via-sibling    ../proj                 (cwd = /x/<newly created empty sibling>)
+//
+// Commands that write coca_reporter/ into the working directory then write it into cwd: callers read the report
+// from filepath.Join(cwd, "coca_reporter"). File paths in a report are relative to cwd when arg is relative:
+// resolve them with AbsFrom(cwd, p). pick in [0, 9) selects the kind (callers pass r.Intn(9) or a fixed rotation).
+func SpellRoot(pick int, absDir, fallbackCwd string) (cwd, arg, kind string) {
+	parent, name := filepath.Dir(absDir), filepath.Base(absDir)
+	emptySub := func() string {
+		sub := filepath.Join(absDir, "zzcwd")
+		os.MkdirAll(sub, 0o755)
+		return sub
+	}
+	switch pick % 9 {
+	case 1:
+		return fallbackCwd, absDir + string(filepath.Separator), "abs-slash"
+	case 2:
+		return parent, name, "rel"
+	case 3:
+		return parent, "." + string(filepath.Separator) + name, "dot-rel"
+	case 4:
+		return parent, name + string(filepath.Separator), "rel-slash"
+	case 5:
+		return absDir, ".", "dot"
+	case 6:
+		return emptySub(), "..", "dotdot"
+	case 7:
+		return fallbackCwd, filepath.Join(emptySub()) + string(filepath.Separator) + "..", "sub-dotdot"
+	case 8:
+		sib := filepath.Join(parent, "zzsibling")
+		os.MkdirAll(sib, 0o755)
+		return sib, ".." + string(filepath.Separator) + name, "via-sibling"
+	}
+	return fallbackCwd, absDir, "abs"
+}
+
+// AbsFrom resolves a path printed by a command that was started in cwd.
+func AbsFrom(cwd, p string) string {
+	if filepath.IsAbs(p) {
+		return filepath.Clean(p)
+	}
+	return filepath.Clean(filepath.Join(cwd, p))
+}
